@@ -226,6 +226,11 @@ func (state inSession) handleResendRequest(session *session, msg *Message) (next
 }
 
 func (state inSession) resendMessages(session *session, beginSeqNo, endSeqNo int, inReplyTo Message) error {
+	if endSeqNo < beginSeqNo {
+		// Nothing was sent in an empty or inverted range.
+		return nil
+	}
+
 	if session.DisableMessagePersist {
 		return state.generateSequenceReset(session, beginSeqNo, endSeqNo+1, inReplyTo)
 	}
